@@ -372,6 +372,32 @@ Theorem fd_then_rnea_zero (t : tree X) :
          (flatten (rnea_of_fd K A nd dy t)).
 Proof. intros Hok. rewrite rnea_of_fd_is_Rsub, flatten_tmap. apply Forall_map.
   destruct (fd_sub t Hok (vzero K, [])) as [_ Hz]. exact Hz. Qed.
+
+(** ** the two routes to the mobilizer reaction forces agree (property C14): at EVERY body of every tree the force
+    accumulated by the free-body (inverse-dynamics) recursion on the accelerations that forward dynamics produced equals
+    P+ (~phi A_parent) + z+, the expression calcMobilizerReactionForces evaluates from the articulated-body pass *)
+Lemma route_sub : forall t, (forall y, In y (flatten (abi_pass K A nd t)) -> node_ok y) -> forall Apu (st : V * V), fst st = fst Apu ->
+  tmap (fun r : (WT * V) * V => (fst (fst r), snd r)) (Rsub t Apu)
+  = tmap (fun r : WT * (V * V) => (fst r, snd (snd r))) (outward (react_step K A nd) st (outward (fd2_step K A nd dy) Apu (F1 t))).
+Proof.
+  induction t as [x cs IH] using tree_ind'. intros Hok Apu st Hst.
+  assert (Hkids : Forall (fun c => forall y, In y (flatten (abi_pass K A nd c)) -> node_ok y) cs).
+  { apply Forall_forall. intros c Hc y Hy. apply Hok. unfold abi_pass. cbn [inward flatten]. right.
+    apply in_flat_map. exists (inward (abi_step K A nd) c). split; [apply in_map; exact Hc | exact Hy]. }
+  destruct (fd_sub (Node x cs) Hok Apu) as [Hroot _]. unfold pfT, zfT, lfT in Hroot.
+  rewrite Rsub_node in *. rewrite F1_node in *. cbv zeta in *. cbn [root fst snd outward tmap] in *.
+  f_equal.
+  - f_equal. rewrite Hroot. unfold react_step, w_x. cbn [fst snd]. rewrite Hst. reflexivity.
+  - rewrite !map_map. apply map_ext_in. intros c Hc. rewrite Forall_forall in IH, Hkids.
+    apply (IH c Hc (Hkids c Hc)). reflexivity.
+Qed.
+
+Theorem reaction_routes_agree (t : tree X) :
+  (forall y, In y (flatten (abi_pass K A nd t)) -> node_ok y) ->
+  map (fun r => (fst (fst r), snd r)) (flatten (react_fb K A nd dy t))
+  = map (fun r => (fst r, snd (snd r))) (flatten (react_art K A nd dy t)).
+Proof. intros Hok. rewrite <- !flatten_tmap. f_equal.
+  unfold react_fb, react_art, fd, fd2_pass. exact (route_sub t Hok (vzero K, []) (vzero K, vzero K) eq_refl). Qed.
 End FD.
 
 (** ** weak-form specification of inverse dynamics, from the generalised adjoint identity *)
